@@ -148,9 +148,11 @@ func Drive(env DriveEnv, m *Monitor, tier string, seed int64, replay string) int
 			blocked := BlockedReservoirFrames(r.Stderr)
 			bi["watchdog"] = true
 			bi["blocked_reservoir_frames"] = blocked
-			if m.ID == "C14" && len(blocked) > 0 {
-				sig := "C14:stall:" + strings.Join(blocked, ";")
-				addViolation(Violation{Property: "C14", Signature: Trunc(sig, 300), What: "no progress until the watchdog fired; goroutines blocked inside reservoir",
+			if (m.ID == "C14" || m.ID == "C09") && len(blocked) > 0 {
+				// C14: bounded progress is the property. C09: "never turn it into ... a hang": a child that had to be
+				// killed with goroutines parked inside reservoir is such a hang (its batch deadline is short).
+				sig := m.ID + ":stall:" + strings.Join(blocked, ";")
+				addViolation(Violation{Property: m.ID, Signature: Trunc(sig, 300), What: "no progress until the watchdog fired; goroutines blocked inside reservoir",
 					Case: json.RawMessage(orNull(r.LastCase)), Witness: map[string]any{"blocked": blocked, "dump_tail": Trunc(r.Stderr, 20000)}, Batch: r.Batch.Name}, r.Batch, 1)
 			} else {
 				inconclusive = append(inconclusive, fmt.Sprintf("%s: watchdog fired after %ds (blocked reservoir frames: %v)", r.Batch.Name, r.Batch.TimeoutS, blocked))
